@@ -1,5 +1,5 @@
 """Budgets: (number of runs, wall-clock cap in seconds) per property and tier."""
-QUICK = {'default': (640, 300)}
+QUICK = {'default': (640, 300), 'C14': (1600, 400)}
 THOROUGH = {'default': (24000, 2700)}
 
 
